@@ -14,6 +14,16 @@ EXTENDS EnvelopeOps
 
 NoParent == <<"noparent">>
 
+(* what tree_format prints for an element (tree_format.rs: summary) *)
+KindWord(e) ==
+  CASE e[1] = "node" -> <<"word", "NODE">>   [] e[1] = "wrap" -> <<"word", "WRAPPED">>
+    [] e[1] = "assn" -> <<"word", "ASSERTION">> [] e[1] = "elided" -> <<"word", "ELIDED">>
+    [] e[1] = "enc" -> <<"word", "ENCRYPTED">> [] e[1] = "comp" -> <<"word", "COMPRESSED">>
+    [] e[1] = "kv" -> <<"kv", e[2]>>          [] e[1] = "leaf" -> <<"leaf", e[2]>>
+(* the label tree_format prints for an incoming edge (walk.rs: EdgeType::label) *)
+EdgeLabel(edge) == CASE edge \in {"Subject", "Wrapped"} -> "subj" [] edge = "Predicate" -> "pred"
+                     [] edge = "Object" -> "obj" [] OTHER -> ""
+
 RECURSIVE WalkStructure(_, _, _, _)
 WalkStructure(e, level, edge, parent) ==
   LET me == Dg(e) IN
@@ -23,7 +33,8 @@ WalkStructure(e, level, edge, parent) ==
       [] e[1] = "wrap" -> << WalkStructure(e[2], level + 1, "Wrapped", me) >>
       [] e[1] = "assn" -> << WalkStructure(e[2], level + 1, "Predicate", me),
                             WalkStructure(e[3], level + 1, "Object", me) >>
-      [] OTHER -> << >> >>
+      [] OTHER -> << >>,
+    KindWord(e), EdgeLabel(edge) >>
 
 (* _walk_tree returns the parent value its caller hands on to the assertions *)
 RECURSIVE WalkTree(_, _, _), TreeParentOut(_, _)
@@ -35,7 +46,8 @@ WalkTree(e, level, parent) ==
   ELSE <<"visit", Dg(e), level, "None", parent,
          CASE e[1] = "wrap" -> << WalkTree(e[2], level + 1, Dg(e)) >>
            [] e[1] = "assn" -> << WalkTree(e[2], level + 1, Dg(e)), WalkTree(e[3], level + 1, Dg(e)) >>
-           [] OTHER -> << >> >>
+           [] OTHER -> << >>,
+         KindWord(e), "" >>
 
 (* elements_count: 1 + children, nothing below obscured elements (= Size) *)
 ElementsCount(e) == Size(e)
